@@ -459,9 +459,9 @@ def run_frames(case, ctx):
 
 def subs(tier):
     return [
-        Sub("definition", run_definition, strategy=particle_set(), quick=1600, thorough=40000, shards_quick=8, shards_thorough=16),
-        Sub("roundtrip", run_roundtrip, strategy=particle_set(), quick=1600, thorough=40000, shards_quick=8, shards_thorough=16),
-        Sub("variants", run_variants, strategy=particle_set(), quick=1200, thorough=30000, shards_quick=8, shards_thorough=16),
-        Sub("hybrid_dh", run_hybrid, strategy=hybrid_case, quick=1600, thorough=40000, shards_quick=8, shards_thorough=16),
-        Sub("frames", run_frames, strategy=frames_case, quick=800, thorough=20000, shards_quick=4, shards_thorough=8),
+        Sub("definition", run_definition, strategy=particle_set(), quick=1600, thorough=24000, shards_quick=8, shards_thorough=16),
+        Sub("roundtrip", run_roundtrip, strategy=particle_set(), quick=1600, thorough=24000, shards_quick=8, shards_thorough=16),
+        Sub("variants", run_variants, strategy=particle_set(), quick=1200, thorough=16000, shards_quick=8, shards_thorough=16),
+        Sub("hybrid_dh", run_hybrid, strategy=hybrid_case, quick=1600, thorough=24000, shards_quick=8, shards_thorough=16),
+        Sub("frames", run_frames, strategy=frames_case, quick=800, thorough=12000, shards_quick=4, shards_thorough=8),
     ]
